@@ -135,8 +135,12 @@ def run(tier):
     while frontier and lvl < depth:
         lvl += 1
         cand = [h + [o] for h in frontier for o in range(len(OPS))]
+        outs = []
         with ThreadPoolExecutor(16) as ex:
-            outs = list(ex.map(lambda h: in_child(run_history, h), cand))
+            for c0 in range(0, len(cand), 1600):          # in slices, so that the time cap also holds inside a level
+                if time.time() - t0 > dl * 0.8: complete = False; break
+                outs += list(ex.map(lambda h: in_child(run_history, h), cand[c0:c0 + 1600]))
+        cand = cand[:len(outs)]
         nxt = []
         for h, r in zip(cand, outs):
             trans += 1
